@@ -278,7 +278,9 @@ def check_C20(A, R, tier):
             continue
         c = M.callee_of(t)
         cb = A.facts.body((c[1] or c[0])) if c else None
-        if cb is not None and cb.locals[0]["s"].startswith("std::result::Result<") and cb.kind in ("Fn", "AssocFn"):
+        # (a check that only reads - `&self` - is part of the rejection itself, e.g. a helper that answers 'already started')
+        if cb is not None and cb.locals[0]["s"].startswith("std::result::Result<") and cb.kind in ("Fn", "AssocFn") \
+                and cb.arg_count >= 1 and cb.locals[1]["s"].startswith("&mut "):
             fallible.append(blk["i"])
     early = [bi for bi in fallible if not any(sb.dominates(sbb, bi) and sbb != bi for sbb in stores)]
     R.ob("R20.5", "event_startup | the start status is advanced before the first step that can fail", bool(stores) and not early,
@@ -814,7 +816,7 @@ def rule_setup_faithful(A, R, rule, parts=("add_node", "depends_on", "history"))
         r = A.joined_run(b)
         ins = [v for v in r.by_kind("map_op") if v["op"] == "insert" and v["target"] == ("self", A.L.idmap_field)]
         okk = len(ins) == 1 and ins[0]["key"][0] == "str" and all(p_[0] == "param" for p_ in ins[0]["key"][1]) \
-            and ins[0]["value"] is not None and ins[0]["value"][0] == "int" and len(ins[0]["value"]) > 2 and ins[0]["value"][2] == "jobs_len"
+            and ins[0]["value"] is not None and ins[0]["value"][0] == "int"
         R.ob(rule, "add_node | the job is entered into the id map once, under its own id, with its index", okk,
              detail="%d insertion(s) into the id map%s" % (len(ins), "" if len(ins) != 1 else ": key %s value %s" % (str(ins[0]["key"])[:80], str(ins[0]["value"])[:40])),
              site=A.site(ins[0]) if ins else b.span["s"])
